@@ -20,7 +20,7 @@ STREAM_TAGS = ("scalar-split", "number-frame-swallow", "truncated-clean-eof", "j
 # small repairs of stream.go (patches/C17-*.diff) -> the finding each one removes; a finding marked "fixed" in
 # known_findings.json tells the driver to run the shipped model with that repair (Model/IOPatched.lean)
 REPAIR_OF = {"C17-stray-closer-noprogress": "a", "C17-truncated-clean-eof": "b", "C17-scalar-split": "c",
-             "C17-error-precedence": "d", "C17-number-frame-swallow": "e"}
+             "C17-error-precedence": "d", "C17-number-frame-swallow": "e", "C17-validate-string-advance": "f"}
 
 
 def repair_flags():
@@ -56,11 +56,13 @@ class C17(Spec):
             return [Stream("chunkings", "c17.stream", 260, timeout=0.02),
                     Stream("big", "c17.big", 25, timeout=0.2),
                     Stream("mutated", "c17.mutated", 500, timeout=0.02),
-                    Stream("sink", "c17.sink", 250, timeout=0.02)]
+                    Stream("sink", "c17.sink", 200, timeout=0.02),
+                    Stream("sinkopts", "c17.sinkopts", 640, timeout=0.02)]
         return [Stream("chunkings", "c17.stream", 30000, timeout=0.02),
                 Stream("big", "c17.big", 1500, timeout=0.2),
                 Stream("mutated", "c17.mutated", 60000, timeout=0.02),
-                Stream("sink", "c17.sink", 20000, timeout=0.02)]
+                Stream("sink", "c17.sink", 20000, timeout=0.02),
+                Stream("sinkopts", "c17.sinkopts", 64000, timeout=0.02)]
 
     # ------------------------------------------------------------------ model line
     def model_line(self, case, sonic):
@@ -105,8 +107,9 @@ class C17(Spec):
 
     @staticmethod
     def in_model(case):
-        """ill-formed UTF-8 is outside the inner-decoder model (C20's subject): encoding/json replaces it,
-        sonic's validating decoder rejects it, the model keeps string bodies raw"""
+        """streams with ill-formed UTF-8 are not compared with encoding/json (the std-flavoured specification
+        keeps string bodies raw, encoding/json replaces the offending bytes); they ARE judged against the
+        specification instantiated with sonic's validating one-value decoder (U+FFFD per offending byte)"""
         if case[0] != "stream":
             return True
         try:
@@ -115,11 +118,21 @@ class C17(Spec):
         except (UnicodeDecodeError, ValueError):
             return False
 
+    @staticmethod
+    def canonical_escapes(case):
+        """the model keeps string bodies as written; an escape that encoding/json re-marshals differently
+        (\\uXXXX, \\/, \\b, \\f - only byte mutations produce them) puts the case outside the comparison of VALUES"""
+        if case[0] != "stream":
+            return True
+        import re
+        data = b"".join(bytes.fromhex(x.rstrip("!")) for x in case[3:] if x.rstrip("!") not in ("-", ""))
+        return re.search(rb"\\[u/bf]", data) is None
+
     def model_ref_disagree(self, case, sonic, model):
         for env, s in sonic.items():
             m = model.get(env) or {}
             if case[0] == "stream":
-                if "specstd" not in m or "ref" not in s or not self.in_model(case):
+                if "specstd" not in m or "ref" not in s or not self.in_model(case) or not self.canonical_escapes(case):
                     continue
                 # the specification instantiated with encoding/json's one-value grammar, against encoding/json
                 if m["specstd"] == s["ref"] or self.undecided(case, m["specstd"], s["ref"]):
@@ -131,6 +144,8 @@ class C17(Spec):
                 steps = [] if case[2] == "-" else case[2].split(",")
                 if "n" in case[1] or any(x.startswith("p") for x in steps):
                     continue  # encoding/json always writes the newline, and ignores short counts
+                if "h" in case[1] or "v" in case[1] or any(x[:1] in "SLM" for x in case[3:]):
+                    continue  # options / ill-formed strings on which encoding/json's bytes differ by design
                 fd, fe = m["fixed"].split("|")
                 rd, re_ = s["ref"].split("|")
                 fd, rd = fd.replace("-", ""), rd.replace("-", "")
@@ -161,7 +176,7 @@ class C17(Spec):
         return out
 
     def judge_stream(self, env, case, s, m):
-        if "spec" not in m or not self.in_model(case):
+        if "spec" not in m or not self.canonical_escapes(case):
             return []
         S, P, P2 = s["sonic"], m["spec"], m.get("spec2")
         sv, st = split_res(S)
